@@ -25,12 +25,14 @@ THEOREMS = ['C17_prefix_mono', 'C17_sld_answers_prefix_monotone', 'C17_machine_a
             'C17_engine_no_depth_error_escapes', 'C17_machine_result_is_prefix',
             'C17_machine_complete_when_shallow', 'C17_result_is_prefix', 'C17_complete_when_shallow',
             'C17_no_depth_error_escapes', 'C17_rlimit_restored', 'C17_generator_closed_on_every_branch',
-            'C17_vars_unbound_after', 'C17_result_collected_so_far', 'C17_nested_keeps_rlimit']
+            'C17_vars_unbound_after', 'C17_result_collected_so_far', 'C17_nested_keeps_rlimit',
+            'C17_close_raises_restores', 'C17_close_raises_outcome']
 IMPORTS = ['Lang.Ast', 'Sem.Machine', 'Sem.RunSem', 'Sem.Native', 'Sem.RunNative', 'Engine.Bounded', 'Engine.RunBoundedM', 'Engine.RunBoundedN']
 MODEL_NEEDS_IMPL = True
 CASE_TIMEOUT = 12
 COQ_CHUNK = 12
 CAP = 160            # answers of the unbounded enumeration that are kept
+PLAIN_MARGIN = 4     # frames
 REFDEPTH = 1500      # recursion limit (above the current depth) of the unbounded enumeration; beyond about 3000 CPython 3.12 aborts ("Cannot recover from stack overflow") when a deep chain of generators resumed from C code is torn down
 RULE = ('queries {finite random programs with control, cut and call/once/findall; finite searches of prescribed depth (fact chains, peano '
         'countdown, list length); left recursion with and without answers before it, mutual recursion, recursion through call/once/findall/'
@@ -50,6 +52,45 @@ CAUGHT = ('RuntimeError', 'RecursionError', 'StopIteration')
 
 class Custom(Exception):
     pass
+
+class CleanupError(Exception):
+    """raised by a registered Python predicate whose clean-up refuses to be closed early (a cursor with unread rows): a NEW
+    object per raise (an object kept by the harness would keep its traceback, hence the frames, alive)"""
+    def __init__(self, which):
+        Exception.__init__(self, 'Python predicate %d closed with unread rows' % which)
+        self.which = which
+
+def wrap_native(yp, f, spec, which, ninner):
+    """round 4: the same Python predicate with (a) a clean-up that raises when the predicate is closed before its rows are
+    exhausted (after releasing what it holds: its bindings are undone first), (b) an evaluate_bounded of its own on the same
+    engine before its first row (re-entrancy: the inner call must put back the limit of the OUTER call, the outer one the
+    caller's).  One more Python frame per call of the predicate (inside the slack of the depth sandwich)."""
+    import functools
+    cleanup, inner = spec.get('cleanup'), spec.get('inner')
+    if not cleanup and not inner:
+        return f
+    @functools.wraps(f)
+    def g(*args):
+        if inner:
+            v = yp.variable()
+            before = sys.getrecursionlimit()
+            r = yp.evaluate_bounded(yp.query(NESTQ, [v]), lambda _: v.get_value(), _depth() + 60)
+            ninner.append([len(r), sys.getrecursionlimit() == before, not v._is_bound])
+        it = f(*args)
+        if not cleanup:
+            yield from it
+            return
+        try:
+            for x in it:
+                yield x
+        except GeneratorExit:
+            it.close()
+            if cleanup == 'slow':
+                import time
+                time.sleep(0.002)
+                raise
+            raise CleanupError(which)
+    return g
 
 class CyclicTerm(BaseException):
     """an answer contains a cyclic term (X = f(X) without occurs check): outside the specified domain, the case is skipped"""
@@ -155,6 +196,15 @@ def _make_exc(name):
 NESTQ = 'nfq__'
 
 def impl(case):
+    # a generator that is finalised (not closed) while its clean-up raises: CPython reports "Exception ignored in" on stderr
+    old_hook = sys.unraisablehook
+    sys.unraisablehook = lambda a: None
+    try:
+        return _impl(case)
+    finally:
+        sys.unraisablehook = old_hook
+
+def _impl(case):
     from yldprolog import compiler, engine as E
     natives = case.get('native') or []
     yp = E.YP()
@@ -172,11 +222,16 @@ def impl(case):
         yp.assert_fact(yp.atom(dname), c20.build_fact(yp, ts))
     # registered Python predicates (as in C20); predicate i raises its own exception object
     nat_exc = [c20.Boom('raised by Python predicate %d' % i) for i in range(len(natives))]
+    ninner = []
+    if any(n.get('inner') for n in natives) and not case.get('nest'):
+        for i in range(2):
+            yp.assert_fact(yp.atom(NESTQ), [i])
     if natives:
         facts = c20.fact_preds(c20.numbered(case))
         for i, spec in enumerate(natives):
             rows = [c20.row_terms(r) for r in facts.get((spec['name'], spec['arity']), [])]
             f, ar = c20.make_native(yp, E, spec, rows, nat_exc[i], [])
+            f = wrap_native(yp, f, spec, i, ninner)       # functools.wraps: the inferred arity is still the one of f
             if ar is None:
                 yp.register_function(spec['name'], f)
             else:
@@ -247,6 +302,9 @@ def impl(case):
             e.__traceback__ = None          # the traceback would keep the frames (and their suspended unify generators) alive
             if which is not None:
                 return ['raise', 'Boom%d' % which, True]
+            if isinstance(e, CleanupError):
+                e.__context__ = None        # the exception that was in flight when close() raised (its traceback holds frames too)
+                return ['raise', 'Cleanup%d' % e.which, True]
             return ['raise', type(e).__name__, e is exc_obj]
         finally:
             info['rl_after'] = sys.getrecursionlimit()
@@ -258,6 +316,7 @@ def impl(case):
         return deep(n - 1)
 
     outcome = deep(case.get('extra_depth', 0))
+    info['ninner'] = list(ninner)
     info['closed'] = (q.gi_frame is None) if hasattr(q, 'gi_frame') else None      # None: not a generator object
     info['leaked'] = sum(1 for v in list(W) if v._is_bound and id(v) not in bound_before) if W is not None else -1
     info['qbound'] = [i for i in range(nq) if T.vars[i]._is_bound]
@@ -274,6 +333,50 @@ def impl(case):
     info['proj_calls'] = state['k']
     info['rl_in'] = sorted(set(state['rl_in']))
     info['nested'] = state['nested']
+    # round 4, "complete whenever the search fits the bound", decided by the implementation itself: the same query (fresh
+    # variables) iterated by a plain loop in a frame at the depth of the evaluate_bounded frame, under the given limit minus a
+    # margin of PLAIN_MARGIN frames.  If that loop runs to the end, the search is finite and fits the bound.
+    info['plain'] = None
+    if isinstance(info.get('limit'), int) and info['limit'] >= 1 and not case.get('nest'):
+        T3 = terms.ImplTerms([yp], nq)
+        objs3 = [T3.build(a) for a in args]
+        def probe(x):
+            return [_read(T3, v) for v in T3.vars[:nq]]       # the frames of the projection function (proj -> _read)
+        def loop(g, out):
+            for x in g:
+                out.append(probe(x))
+                if len(out) >= CAP:
+                    return 'cap'
+            return 'done'
+        def call2():
+            cur = _depth() + 1
+            lim = cur + (info['limit'] - info['cur']) - PLAIN_MARGIN
+            if lim < cur + 4:
+                return None
+            g = yp.query(name, objs3)
+            out = []
+            sys.setrecursionlimit(lim)
+            try:
+                end = loop(g, out)
+            except CyclicTerm:
+                end = 'cyclic'
+            except RecursionError:
+                end = 'rec'
+            except BaseException as e:
+                end = 'raised ' + type(e).__name__
+                e.__traceback__ = None
+            finally:
+                sys.setrecursionlimit(cur + REFDEPTH)
+                try:
+                    g.close()
+                except BaseException:
+                    pass
+            return [end, [canon(a) for a in out]]
+        def deep2(n):
+            if n == 0:
+                return call2()
+            return deep2(n - 1)
+        info['plain'] = deep2(case.get('extra_depth', 0))
     # the unbounded enumeration of the same query (fresh variables), first CAP answers
     T2 = terms.ImplTerms([yp], nq)
     objs2 = [T2.build(a) for a in args]
@@ -417,6 +520,9 @@ def compare(case, io, mo):
         if m[side]['rl'] != io['rl0']:
             return 'model: recursion limit not restored (model %s)' % side
     got = impl_outcome_as_model(io, case)
+    if io['outcome'][0] == 'raise' and io['outcome'][1].startswith('Cleanup'):
+        # close() of the abandoned query raised (clean-up of a Python predicate): not in the model; the oracle judges the rest
+        return None if io['rl_after'] == io['rl0'] else 'recursion limit afterwards: implementation %d, before the call %d' % (io['rl_after'], io['rl0'])
     if io['rl_after'] != m['hi_out']['rl']:
         return 'recursion limit afterwards: implementation %d, model %d' % (io['rl_after'], m['hi_out']['rl'])
     if io['closed'] is not None and io['closed'] != m['hi_out']['closed']:
@@ -461,6 +567,12 @@ def oracle(case, io):
         return 'the recursion limit inside the projection function was %s, requested %d' % (io['rl_in'], io['limit'])
     if io['nested'] and not all(io['nested']):
         return 'nested evaluate_bounded: limit restored / variable unbound / generator finished = %s' % io['nested']
+    for r in io.get('ninner') or []:
+        if not (r[1] and r[2]):
+            return 'evaluate_bounded inside a Python predicate: limit of the outer call restored / variable unbound = %s' % r[1:]
+    msg = _complete(case, io)
+    if msg:
+        return msg
     if o[0] == 'raise':
         if o[1] in CAUGHT:
             return 'a %s escaped from evaluate_bounded' % o[1]
@@ -470,6 +582,11 @@ def oracle(case, io):
             return None
         inner = case.get('nest') and (case['nest'][2] == 'zero' or (case['nest'][3] and case['nest'][3][1] not in CAUGHT))
         if inner:
+            return None
+        if o[1].startswith('Cleanup'):
+            i = int(o[1][7:])
+            if (case.get('native') or [])[i].get('cleanup') != 'raise':
+                return 'a clean-up exception of Python predicate %d arrived although its clean-up never raises' % i
             return None
         if o[1].startswith('Boom'):
             i = int(o[1][4:])
@@ -496,6 +613,27 @@ def oracle(case, io):
             return 'the result is not a prefix of the unbounded enumeration'
         if len(res) > len(io['ref']) and io['ref_end'] != 'cap':
             return 'the result has more answers (%d) than the unbounded enumeration (%d)' % (len(res), len(io['ref']))
+    return None
+
+def _complete(case, io):
+    """the search is finite and fits the bound (a plain loop at the same depth under a slightly LOWER limit ran to its end):
+    the result must be the projection of every answer, in order (up to the answer at which the projection raises)"""
+    pl = io.get('plain')
+    if not pl or pl[0] != 'done' or case.get('nest') or io.get('cyclic'):
+        return None
+    A = pl[1]
+    o = io['outcome']
+    rs = case.get('raise')
+    if rs and rs[0] < len(A):
+        if o[0] == 'return' and isinstance(o[1], list) and o[1] != A[:rs[0]]:
+            return ('the search fits the bound (a plain loop under the limit minus %d ran to its end with %d answers) but the result has %d answers, '
+                    'the projection raises at answer %d' % (PLAIN_MARGIN, len(A), len(o[1]), rs[0]))
+        return None
+    if o[0] == 'raise':
+        return None       # judged by the other conditions (what may escape)
+    if isinstance(o[1], list) and o[1] != A:
+        return ('the search is finite and fits the bound (a plain loop at the same depth under the limit minus %d ran to its end with %d answers) '
+                'but evaluate_bounded returned %d answers%s' % (PLAIN_MARGIN, len(A), len(o[1]), '' if len(o[1]) != len(A) else ' (different ones)'))
     return None
 
 # ------------------------------------------------------------------ cases
@@ -579,9 +717,35 @@ def fam_random(rng):
     p = progs.gen_program(rng, o)
     return {'family': 'random', 'clauses': p['clauses'], 'query': rng.choice(p['queries']), 'fpl': 3, 'tdepth': 10, 'maxdelta': 160, 'dchk': 40}
 
-def nspec(rng, name, ar, raise_=None):
-    return {'name': name, 'arity': ar, 'style': rng.choice(['inferred', 'explicit', 'variadic']),
-            'yield': rng.choice(['false', 'true', 'mixed']), 'form': rng.choice(['arrays', 'nested']), 'raise': raise_}
+def nspec(rng, name, ar, raise_=None, pclean=0.3):
+    d = {'name': name, 'arity': ar, 'style': rng.choice(['inferred', 'explicit', 'variadic']),
+         'yield': rng.choice(['false', 'true', 'mixed']), 'form': rng.choice(['arrays', 'nested']), 'raise': raise_}
+    # round 4: finalisation that raises when the predicate is closed early / is slow; an evaluate_bounded inside the predicate
+    d['cleanup'] = rng.choice(['raise', 'raise', 'slow']) if rng.random() < pclean else None
+    d['inner'] = rng.random() < 0.2
+    return d
+
+def fam_pytop(rng):
+    """a registered Python predicate as the goal of the query itself, behind call/N (both reached by `yield from` delegation
+    only: what its clean-up raises on close() arrives at the caller of close()) or behind compiled clauses"""
+    rows = [A(x) for x in rng.choice([['a', 'b', 'c'], ['a'], ['a', 'b', 'a', 'd', 'e']])]
+    cl = [fact('q', r) for r in rows]
+    k = rng.randrange(0, 8)
+    if k == 0:
+        query = ['q', [V('Q0')]]
+    elif k == 1:
+        query = ['call', [F('q', V('Q0'))]]
+    elif k == 2:
+        query = ['call', [A('q'), V('Q0')]]
+    elif k == 3:
+        query = ['call', [F('call', A('q'), V('Q0'))]]
+    else:
+        body = [call('call', F('q', V('X'))), call('call', A('q'), V('X')), call('q', V('X')),
+                ['and', call('call', A('q'), V('X')), call('call', A('q'), V('Y'))]][k - 4]
+        cl = cl + [['t', [V('X'), V('Y')], body]]
+        query = ['t', [V('Q0'), V('Q1')]]
+    return {'family': 'py-top', 'clauses': cl, 'query': query, 'fpl': 3, 'tdepth': 3, 'maxdelta': 200, 'need': 4, 'praise': 0.6, 'kmaxs': [0, 0, 1, 1, 2, 3, 6],
+            'native': [nspec(rng, 'q', 1, rng.choice([None, None, None, 1, 3]), pclean=0.7)], 'dyn': c20.dyn_terms([['q', [A('dyn')]]]) if rng.random() < 0.3 else []}
 
 def fam_python(rng):
     """engines with registered Python predicates and dynamic facts (model: Sem/NativeExc.v); a Python predicate may raise its
@@ -691,19 +855,29 @@ def decorate(rng, c):
         c['abs_limit'] = 'default'
         c['delta'] = 180
     c['rl0_extra'] = rng.choice([700, 1000, 1234, 2500, 6000])
+    if c['abs_limit'] is None and rng.random() < 0.2:
+        # round 4: the bound is EQUAL TO / ABOVE the limit the interpreter has before the call (evaluate_bounded must raise the
+        # limit then): with a finite search whose depth lies between the two the result must still be complete
+        finite = c.get('need') is not None
+        if finite and rng.random() < 0.5:
+            c['delta'] = min(max(c['delta'], 2 * c['need'] + rng.randrange(10, 60)), max(c.get('maxdelta', 400), 2 * c['need'] + 60))
+        if finite and rng.random() < 0.2:
+            c['delta'] = rng.choice([900, 1500, 2600])           # far above
+        if c['delta'] >= 28:
+            c['rl0_extra'] = rng.choice([c['delta'], 25, 25, 32, 40, max(25, c['delta'] // 2), max(25, c['delta'] - 7)])
     c['extra_depth'] = rng.choice([0, 0, 0, 3, 17, 60])
     r = rng.random()
     c['raise'] = None
     c['nest'] = None
-    if r < 0.45:
-        kmax = rng.choice([0, 0, 1, 2, 3, 5, 10, 40])
+    if r < c.get('praise', 0.45):
+        kmax = rng.choice(c.get('kmaxs') or [0, 0, 1, 2, 3, 5, 10, 40])
         c['raise'] = [rng.randrange(0, kmax + 1), rng.choice(EXC)]
     elif r < 0.58 and c['delta'] >= 14 and c['abs_limit'] is None:
         rs2 = [rng.randrange(0, 3), rng.choice(EXC)] if rng.random() < 0.4 else None
         c['nest'] = [rng.randrange(0, 3), rng.randrange(0, 4), rng.choice(['ok', 'ok', 'low', 'zero']), rs2]
     return c
 
-FAMILIES = [(fam_random, 5), (fam_chain, 3), (fam_countdown, 1), (fam_len, 1), (fam_leftrec, 4), (fam_infinite, 4), (fam_python, 5), (fam_meta, 5)]
+FAMILIES = [(fam_random, 5), (fam_chain, 3), (fam_countdown, 1), (fam_len, 1), (fam_leftrec, 4), (fam_infinite, 4), (fam_python, 5), (fam_meta, 5), (fam_pytop, 4)]
 
 def gen(rng, tier):
     n = 290 if tier == 'quick' else 4000
@@ -758,8 +932,30 @@ def builtin_corpus():
         c['need'] = n + 3
         for delta in range(2 * n + 2, 2 * n + 22, 4):
             add(c, delta=delta)
+    # round 4: a Python predicate whose clean-up raises when it is closed early, reached by `yield from` only / behind compiled code,
+    # abandoned by every class of projection exception; bounds equal to and above the interpreter's limit over a finite search
+    r4 = random.Random(4)
+    seen = set()
+    while len(seen) < 6:
+        c = fam_pytop(r4)
+        key = repr(c['query']) + repr(c['clauses'][-1])
+        if key in seen:
+            continue
+        seen.add(key)
+        c['native'][0].update(cleanup='raise', inner=len(seen) % 2 == 0, **{'raise': None})
+        for e in ('KeyError', 'StopIteration', 'RecursionError'):
+            add(c, delta=60, **{'raise': [0, e]})
+        add(c, delta=60)
+    for n in (5, 30):
+        c = fam_chain(rng, n)
+        c['query'] = ['ch', [A('n0')]]
+        c['need'] = n + 3
+        for extra in (25, 2 * n + 10, 2 * n + 40):
+            add(c, delta=2 * n + 40, rl0_extra=extra)
+        add(c, delta=1500, rl0_extra=25)
     for c in L:
         c.pop('raise_', None)
+        c.pop('praise', None); c.pop('kmaxs', None)
     return L
 
 def nontrivial(case, io):
@@ -775,6 +971,20 @@ def nontrivial(case, io):
 def distribution(cases, obs):
     d = {'family': {}, 'outcome': {}, 'result_vs_unbounded': {'complete': 0, 'proper prefix': 0, 'empty although answers exist': 0},
          'delta': {'<=0': 0, '1-12': 0, '13-40': 0, '41-120': 0, '>120': 0}, 'projection': {'returns': 0, 'nested': 0}, 'absolute limit (0, negative, default 200)': 0}
+    r4 = d['round 4'] = {'bound equal to or above the interpreter limit': 0, 'of these: search complete (depth between the two limits or below)': 0,
+                         'plain loop under the bound minus margin ran to its end (completeness oracle applies)': 0,
+                         'Python predicate with raising clean-up': 0, 'close() of the abandoned query raised (CleanupError came out)': 0,
+                         'Python predicate with slow clean-up': 0, 'evaluate_bounded inside a Python predicate (calls)': 0}
+    for c, o in zip(cases, obs):
+        if isinstance(o, dict) and 'outcome' in o:
+            above = c.get('abs_limit') is None and c['rl0_extra'] <= c['delta']
+            r4['bound equal to or above the interpreter limit'] += above
+            r4['of these: search complete (depth between the two limits or below)'] += bool(above and o.get('plain') and o['plain'][0] == 'done' and o['plain'][1])
+            r4['plain loop under the bound minus margin ran to its end (completeness oracle applies)'] += bool(o.get('plain') and o['plain'][0] == 'done')
+            r4['Python predicate with raising clean-up'] += any(n.get('cleanup') == 'raise' for n in c.get('native') or [])
+            r4['Python predicate with slow clean-up'] += any(n.get('cleanup') == 'slow' for n in c.get('native') or [])
+            r4['close() of the abandoned query raised (CleanupError came out)'] += o['outcome'][0] == 'raise' and o['outcome'][1].startswith('Cleanup')
+            r4['evaluate_bounded inside a Python predicate (calls)'] += len(o.get('ninner') or [])
     for c, o in zip(cases, obs):
         fam = c.get('family', '?')
         fam = 'leftrec' if fam.startswith('leftrec') else fam
